@@ -13,7 +13,6 @@ from __future__ import annotations
 import ast
 
 from ..dataflow import all_def_values
-from ..dictflow import AD, DictInterp, Problem, consume, produce
 from ..effects import Unknown, ceval
 from ..model import AnalysisError, ClassInfo, FuncInfo, dotted, norm_stmt, unparse, walk_no_nested
 from .common import QUICK, calls_in, kwarg, parents_map
@@ -232,6 +231,9 @@ def rule_r2(prog, res) -> None:
 
 
 def dict_protocol(prog, res, rule: str, *, only_modify: bool = False) -> int:
+    """to_dict -> from_dict and modify -> from_dict, decided on the symbolic store (see yawsa.dictsym)"""
+    from .. import dictsym, symx
+
     n = 0
     for ci in prog.classes:
         td, fd = prog.find_method(ci, "to_dict"), prog.find_method(ci, "from_dict")
@@ -240,73 +242,72 @@ def dict_protocol(prog, res, rule: str, *, only_modify: bool = False) -> int:
         if any(m.is_abstract for m in [prog.find_method(ci, x) for x in ("create", "modify", "__eq__")] if m is not None) and ci.name in ("BaseConfig",):
             continue
         param = fd.param_names()[1]
+        try:
+            arms = dictsym.produced(prog, td)
+        except AnalysisError as err:
+            raise AnalysisError(f"{rule}: {err}")
         if not only_modify:
-            try:
-                arms = produce(prog, td, ci)
-            except AnalysisError as err:
-                raise AnalysisError(f"{rule}: {err}")
-            for conds, ad in arms:
+            for p, d in arms:
                 n += 1
                 res.touch(td)
                 res.touch(fd)
-                probs = consume(prog, fd, param, ad, ci, f"{ci.name}.to_dict() {dict(conds) if conds else ''} -> from_dict")
+                keys = sorted(k.value for k in d.keys)
+                probs = dictsym.consume(prog, ci, fd, param, d, dictsym.facts_of(p), f"{ci.name}.to_dict() -> from_dict")
                 if probs:
-                    for p in probs:
-                        res.violation(rule, p.func, p.node, p.message, key_extra=f"{ci.name}-roundtrip-{p.key}")
+                    for pr in probs:
+                        res.violation(rule, pr.func, pr.node, pr.message, key_extra=f"{ci.name}-roundtrip-{pr.key}")
                 else:
-                    res.ok(rule, res.site(fd, f"to_dict arm {dict(conds)}"), f"keys {sorted(ad.keys)} are consumed by from_dict without unaccepted / missing keys")
+                    res.ok(rule, res.site(fd, f"to_dict arm {p.cond_text()[:50]}"), f"keys {keys} are consumed by from_dict without unaccepted / missing keys")
         # modify -> from_dict
         md = ci.methods.get("modify")
         if md is None:
             continue
-        it = DictInterp(prog, md, ci)
-        env = {p: "unknown" for p in md.param_names()[1:]}
-        it.run(env)
+        res.touch(md)
+        mpaths = symx.explore(prog, md, inline=dictsym._policy(prog, {"create", "to_dict"}), skip_tests=("logger",))
         sites = 0
-        for call, cenv, conds in it.calls:
-            f = call.func
-            if not (isinstance(f, ast.Attribute) and f.attr == "from_dict"):
-                continue
-            if not call.args or not isinstance(call.args[0], ast.Name) or not isinstance(cenv.get(call.args[0].id), AD):
-                raise AnalysisError(f"{rule}: dictionary handed to from_dict in {md.short} could not be tracked")
-            ad = cenv[call.args[0].id]
+        handed = []
+        for p in mpaths:
+            for ev in p.calls("from_dict"):
+                if ev.fi is not md and getattr(ev.fi, "origin", None) is not md:
+                    continue
+                if not ev.expr.args:
+                    continue
+                d = dictsym._dict_of(ev.expr.args[0])
+                if d is None:
+                    raise AnalysisError(f"{rule}: dictionary handed to from_dict in {md.short} could not be tracked ({unparse(ev.expr.args[0])[:60]})")
+                handed.append((p, ev, d))
+        generic = [c for c in calls_in(md) if isinstance(c.func, ast.Attribute) and c.func.attr == "modify" and isinstance(c.func.value, ast.Call) and isinstance(c.func.value.func, ast.Name) and c.func.value.func.id == "super"]
+        if not handed and not generic:
+            continue
+        probs = dictsym.check_paths(prog, ci, mpaths, f"{ci.name}.modify() -> from_dict")
+        for p, ev, d in handed:
             sites += 1
             n += 1
-            res.touch(md)
-            extra = {k.replace(call.args[0].id, param, 1) if k.startswith(("const:", "notconst:")) else k: v for k, v in cenv.items() if k.startswith(("const:" + call.args[0].id, "notconst:" + call.args[0].id))}
-            probs = consume(prog, fd, param, ad, ci, f"{ci.name}.modify() -> from_dict", extra_env=extra)
-            label = ", ".join(f"{'' if pol else 'not '}{c}" for c, pol in conds[-3:])
-            # modify keeps what it is not asked to change: the dictionary covers the keys of (one arm of) to_dict;
-            # a key that is missing silently takes from_dict's default instead of this object's value
-            try:
-                td_arms = produce(prog, td, ci)
-            except AnalysisError:
-                td_arms = []
-            if td_arms and not ad.open:
-                short = min((sorted({k_ for k_, kind_ in a_.keys.items() if kind_ != "none"} - set(ad.keys)) for _c, a_ in td_arms), key=len)
-                if short:
-                    probs = list(probs) + [Problem(call, md, f"{ci.name}.modify() hands {sorted(ad.keys)} to from_dict and leaves out {short}, which to_dict() stores: the modified copy silently takes the default for it instead of the current value", f"modify-drops-{'-'.join(short)}")]
-            if probs:
-                for p in probs:
-                    res.violation(rule, p.func, p.node, p.message + f" [modify path: {label}]", key_extra=f"{ci.name}-modify-{p.key}")
-            else:
-                res.ok(rule, res.site(md, f"path {label}"[:90]), f"dict {sorted(ad.keys)} is consumed by from_dict without unaccepted / missing keys")
-        # modify delegating to the generic base implementation
-        for call in calls_in(md):
-            if isinstance(call.func, ast.Attribute) and call.func.attr == "modify" and isinstance(call.func.value, ast.Call) and isinstance(call.func.value.func, ast.Name) and call.func.value.func.id == "super":
-                base = prog.find_method(ci, "modify", after=ci)
-                kws = {k.arg for k in call.keywords if k.arg}
-                arms = produce(prog, td, ci)
-                for conds, ad in arms:
-                    n += 1
-                    extra_keys = kws - set(ad.keys)
-                    merged = AD({**ad.keys, **{k: "unknown" for k in kws}})
-                    probs = consume(prog, fd, param, merged, ci, f"{ci.name}.modify() (generic) -> from_dict")
-                    if probs:
-                        for p in probs:
-                            res.violation(rule, p.func, p.node, p.message, key_extra=f"{ci.name}-modify-{p.key}")
-                    else:
-                        res.ok(rule, res.site(md, "super().modify"), f"to_dict keys merged with {sorted(kws)} are accepted by from_dict")
+            have = {k.value for k in d.keys}
+            # modify keeps what it is not asked to change: the dictionary covers the keys that (one arm of) to_dict stores with a value
+            short = min((sorted({k.value for k, v in zip(a_.keys, a_.values) if not (isinstance(v, ast.Constant) and v.value is None)} - have) for _p, a_ in arms), key=len)
+            if short:
+                probs.append(dictsym.Problem(ev.node, md, f"{ci.name}.modify() hands {sorted(have)} to from_dict and leaves out {short}, which to_dict() stores: the modified copy silently takes the default for it instead of the current value [when {p.cond_text()[:100]}]", f"modify-drops-{'-'.join(short)}"))
+        seen = set()
+        for pr in probs:
+            if (pr.key, id(pr.node)) in seen:
+                continue
+            seen.add((pr.key, id(pr.node)))
+            res.violation(rule, pr.func, pr.node, pr.message, key_extra=f"{ci.name}-modify-{pr.key}")
+        if not probs and handed:
+            res.ok(rule, res.site(md, "modify -> from_dict"), f"on all {len(handed)} path(s) the dictionary is consumed by from_dict without unaccepted / missing keys and covers what to_dict stores")
+        # modify delegating to the generic base implementation: to_dict keys merged with the given keywords
+        for call in generic:
+            kws = {k.arg for k in call.keywords if k.arg}
+            for p, d in arms:
+                n += 1
+                merged = ast.Dict(keys=list(d.keys) + [ast.Constant(value=k) for k in sorted(kws) if k not in {x.value for x in d.keys}], values=list(d.values) + [ast.Name(id=k, ctx=ast.Load()) for k in sorted(kws) if k not in {x.value for x in d.keys}])
+                probs2 = dictsym.consume(prog, ci, fd, param, merged, dictsym.facts_of(p), f"{ci.name}.modify() (generic) -> from_dict")
+                if probs2:
+                    for pr in probs2:
+                        res.violation(rule, pr.func, pr.node, pr.message, key_extra=f"{ci.name}-modify-{pr.key}")
+                else:
+                    res.ok(rule, res.site(md, "super().modify"), f"to_dict keys merged with {sorted(kws)} are accepted by from_dict")
     return n
 
 
